@@ -70,8 +70,12 @@ def check_lookup_strategy(ctx, T):
                 if isinstance(s, ast.If) and isinstance(s.test, ast.Compare) and isinstance(s.test.ops[0], ast.In) \
                         and is_name(s.test.comparators[0], dv) and is_upper(s.test.left):
                     r = [x for x in s.body if isinstance(x, ast.Return)]
-                    if r and isinstance(r[0].value, ast.Tuple) and isinstance(r[0].value.elts[0], ast.Subscript) \
-                            and is_name(r[0].value.elts[0].value, dv) and is_upper(r[0].value.elts[0].slice):
+
+                    def is_hit(e):
+                        return isinstance(e, ast.Subscript) and is_name(e.value, dv) and is_upper(e.slice)
+                    hit_names = {t.id for x in s.body if isinstance(x, ast.Assign) and is_hit(x.value) for t in x.targets if isinstance(t, ast.Name)}
+                    if r and isinstance(r[0].value, ast.Tuple) and (is_hit(r[0].value.elts[0]) or (
+                            is_name(r[0].value.elts[0]) and r[0].value.elts[0].id in hit_names)):
                         strategy = 'last' if rev else 'first'
                         how = f'loop over {"reversed " if rev else ""}self._keywords returning the first hit'
     if strategy is None:
